@@ -197,6 +197,27 @@ def ops(schema_obj, data, seed):
     return out
 
 
+def observable(op, res):
+    """what the property compares: values, bytes and texts exactly, except that (a) a failing call is compared as
+    'raised' (which exception a non-conforming datum raises is not fixed by the property) and (b) JSON text is
+    compared as parsed documents with numbers by value (the piecewise form spells dict-form primitives simply, which
+    changes `1` into `1.0` in a float field of a record)"""
+    from props.c15 import by_value
+
+    def err(x):
+        return "ERR" if isinstance(x, str) and x.startswith("ERR:") else x
+    if isinstance(res, list):
+        return [err(x) for x in res]
+    if op == "json" and isinstance(res, str) and not res.startswith("ERR:"):
+        try:
+            return [by_value(canon(to_wire(json.loads(line)))) for line in res.splitlines() if line.strip()]
+        except Exception:
+            return res
+    if op == "json_back" and isinstance(res, list):
+        return [by_value(x) for x in res]
+    return err(res)
+
+
 def run(tier, seed):
     run = Run("C12", tier, seed)
     run.rule = ("schemas of the generator x {raw, parsed, parsed twice, piecewise (a random subset of the named types parsed "
@@ -289,7 +310,7 @@ def run(tier, seed):
             run.cov["evaluations"] += 1
             run.tag("form:" + fname)
             for k in base:
-                if got.get(k) != base[k]:
+                if observable(k, got.get(k)) != observable(k, base[k]):
                     c2 = dict(case, form=fname, operation=k, with_raw=base[k], with_form=got.get(k), tags=tags + [fname, "op:" + k])
                     if split:
                         c2["pieces"], c2["parent"] = split
